@@ -27,7 +27,8 @@ META = {
         'ordered metadata, ordered columns and rows by zipping cells onto column names.  (D7) date-time payloads: the reader converts the written instant into the named zone with astimezone, the writer emits isoformat() of the value itself plus the zone name.  Also: the version reaches every nested writer (version threading, locals resolved), the header carries the grid\'s own version, the document text is not rewritten before parsing, the zone name written is justified for that instant (shared with C17.D3).  Not decided: equality of the '
         'reconstructed objects (float parsing, tz arithmetic: see C17).'
         ' Also (D2): Ref.__init__ sets has_value for every value other than None (decision table incl. the empty display string); the hs_ref action decides presence of the display token by token count.'
-        " Also (D2): the reader's number token matches no <written number><start of a unit> (quantity split).  (D6) tag / column order is not built by walking a set expression."),
+        " Also (D2): the reader's number token matches no <written number><start of a unit> (quantity split).  (D6) tag / column order is not built by walking a set expression."
+        ' Also (D4): time literals denote exactly the time they spell (no float, fraction padded as text); number texts are not trimmed in exponent form.'),
     'rule_text': 'obligations = ladder rows, kinds x (inclusion + pairwise disjointness) x 2 versions, code-point classes, '
                  'exactness per kind, framing/assembly facts',
     'trusted_base': ['pyparsing Or = longest match with list-order ties; the regular abstraction of the reader can miss, '
@@ -52,6 +53,8 @@ def run(ctx):
         _framing(ctx, version)
     _document(ctx)
     _zinc.quantity_split(ctx, 'C01.D2')
+    _zinc.number_text_edits(ctx, 'C01.D4', 'zincdumper')
+    _zinc.time_literal_exact(ctx, 'C01.D4', 'zincparser')
     from . import _parse as _p
     _p.set_iteration(ctx, 'C01.D6', ('zincparser', 'zincdumper'))
     from . import _parse
